@@ -769,15 +769,22 @@ class SymBytes:
   def ljust(self, n, pad=b' '): return SymBytes(self.b + [pad[0]] * (n - len(self.b)))
   def tobytes(self): return self
   def hex(self): return self.concretize().hex()
+  @staticmethod
+  def _nostr(x, msg):
+    # bytes methods reject text operands exactly like the real type does
+    if isinstance(x, str) or type(x).__name__ == 'SymStr': raise TypeError(msg % type(x).__name__.replace('SymStr', 'str'))
   def startswith(self, p, start=0):
+    self._nostr(p, "startswith first arg must be bytes or a tuple of bytes, not %s")
     p = list(p)
     if len(self.b) - start < len(p): return False
     return bool(SymBytes(self.b[start:start + len(p)]) == SymBytes(p))
   def endswith(self, p):
+    self._nostr(p, "endswith first arg must be bytes or a tuple of bytes, not %s")
     p = list(p)
     if len(self.b) < len(p): return False
     return bool(SymBytes(self.b[len(self.b) - len(p):]) == SymBytes(p))
   def find(self, sub, start=0, end=None):
+    self._nostr(sub, "argument should be integer or bytes-like object, not '%s'")
     sub = list(sub) if not isinstance(sub, (int, SymInt)) else [sub]
     end = len(self.b) if end is None else end
     for i in range(start, end - len(sub) + 1):
@@ -791,6 +798,7 @@ class SymBytes:
     if i + len(sub) > len(self.b): return False
     return bool(SymBytes(self.b[i:i + len(sub)]) == SymBytes(sub))
   def count(self, sub):
+    self._nostr(sub, "argument should be integer or bytes-like object, not '%s'")
     sub = [sub] if isinstance(sub, (int, SymInt)) else list(sub)
     n = 0; i = 0
     while i + len(sub) <= len(self.b):
@@ -798,6 +806,7 @@ class SymBytes:
       else: i += 1
     return n
   def split(self, sep, maxsplit=-1):
+    self._nostr(sep, "a bytes-like object is required, not '%s'")
     sep = list(sep)
     if not sep: raise ValueError("empty separator")
     out = []; cur = []; i = 0
@@ -808,6 +817,7 @@ class SymBytes:
     out.append(SymBytes(cur))
     return out
   def rsplit(self, sep, maxsplit=-1):
+    self._nostr(sep, "a bytes-like object is required, not '%s'")
     sep = list(sep)
     if maxsplit < 0: return self.split(sep)
     out = []; end = len(self.b); i = end - len(sep)
@@ -818,6 +828,7 @@ class SymBytes:
     out.insert(0, SymBytes(self.b[:end]))
     return out
   def replace(self, old, new):
+    self._nostr(old, "a bytes-like object is required, not '%s'"); self._nostr(new, "a bytes-like object is required, not '%s'")
     old = list(old); out = []; i = 0
     while i < len(self.b):
       if old and self._at(i, old): out.extend(new); i += len(old)
